@@ -580,6 +580,25 @@ def rule_tables(prog):
                                 toks.add(tags[d["p"]])
             levels[b["name"]] = (toks, b)
     if set(levels) != {"parse_comparison", "parse_add", "parse_mul"}:
+        # by role: the functions of the parser that yield an Expression and choose between operator tokens
+        levels = {}
+        fc_ = prog.front
+        for b in fc_.bodies:
+            f_ = fc_.file_of(b["sp"])
+            if b["k"] != "fn" or not (f_.endswith("src/parser.rs") or "/parser/" in f_) or "/tests" in f_ or "sig_out" not in b or \
+                    "Expression" not in fc_.tstr(b["sig_out"]):
+                continue
+            toks = set()
+            for n in hir.nodes(b["body"], "Call"):
+                if (hir.callee(n) or "").endswith("nom::branch::alt"):
+                    for el in hir.strip(n["args"][0]).get("es", []):
+                        d = hir.path_def(el)
+                        if d and d["p"] in tags:
+                            toks.add(tags[d["p"]])
+            role = "parse_mul" if "Times" in toks else "parse_add" if "Plus" in toks else "parse_comparison" if "Eq" in toks else None
+            if role is not None and role not in levels:
+                levels[role] = (toks, b)
+    if set(levels) != {"parse_comparison", "parse_add", "parse_mul"}:
         out.missing("parse_comparison/parse_add/parse_mul")
         return out
     for lvl, (toks, b) in sorted(levels.items()):
